@@ -37,7 +37,11 @@ static std::string json_escape(const std::string& s) {
 
 static void write_case_file(const std::string& path, const PropDef& p, const std::vector<uint32_t>& tape,
                             size_t used, const std::string& cls, const std::string& msg, const std::string& desc) {
-  std::ofstream f(path);
+  // written under a private name and renamed: several workers may shrink to the same case (same hash, same path) while the driver replays it
+  const std::string tmp = path + ".tmp." + std::to_string((long)getpid());
+  struct Renamer { std::string a, b; ~Renamer() { std::rename(a.c_str(), b.c_str()); } };
+  Renamer rn{tmp, path};   // declared first: destroyed after the stream is closed
+  std::ofstream f(tmp);
   f << "# verif case v1\n";
   f << "prop " << p.name << "\n";
   f << "target " << g_target << "\n";
